@@ -84,13 +84,18 @@ NewAlignedDefault == Pad /\ Scratch /\ \E t \in AlignedDefaultSeeds, d \in Dsts 
   LET op == Op("new_aligned_default", 0, 0, d, "AlignedPadding", Seq2(t), <<>>) IN
   Step("NewAlignedDefault", op, EvNewAlignedDefault(op))
 
-NewExact == Pad /\ Scratch /\ \E t \in ExactSeeds, c \in Sub("ExactPadding"), d \in Dsts :
+NewExact == Pad /\ Scratch /\ \E t \in ExactSeeds, d \in Dsts :
+  \E c \in Sub("ExactPadding") \cup (IF Subs THEN {"CustomPadding"} ELSE {}) :
   LET op == Op("new_exact", 0, 0, d, c, <<t[1], t[2], t[3], t[4]>>, <<t[5]>>) IN
   P!ValidExact(t[1], t[2], t[3], t[4]) /\ Step("NewExact", op, EvNewExact(op))
 
 NewExactRejected == Pad /\ RejectAt /\ \E t \in ExactSeeds, c \in Sub("ExactPadding") :
   LET op == Op("new_exact", 0, 0, Spare, c, <<t[1], t[2], t[3], t[4]>>, <<t[5]>>) IN
   ~P!ValidExact(t[1], t[2], t[3], t[4]) /\ Step("NewExactRejected", op, EvNewExact(op))
+
+\* the abstract base class itself cannot be instantiated
+NewAbstract == Pad /\ RejectAt /\ \E f \in {<<>>} \cup {<<x>> : x \in Fills} :
+  Step("NewAbstract", Op("new_abstract", 0, 0, Spare, "Padding", <<>>, f), EvNewAbstract)
 
 NewExactDefault == Pad /\ Scratch /\ \E d \in Dsts :
   LET op == Op("new_exact_default", 0, 0, d, "ExactPadding", <<>>, <<>>) IN
@@ -115,12 +120,17 @@ ToExactAligned == \E i \in Of("aligned"), r \in RSs, d \in Dsts :
 
 ToExactExact == \E i \in Of("exact"), r \in RSs, d \in Dsts :
   LET op == Op("to_exact", i, 0, d, "", Seq2(r), <<>>) IN
-  StepV("ToExactExact", op, EvToExact(S[i], SzOf(r), op), "self")
+  ~IsCustom(S[i]) /\ StepV("ToExactExact", op, EvToExact(S[i], SzOf(r), op), "self")
 
 \* ... or an equal new ExactPadding: equally "an equivalent exact padding"
 ToExactExactCopy == \E i \in Of("exact"), r \in RSs, d \in Dsts :
   LET op == Op("to_exact", i, 0, d, "", Seq2(r), <<>>) IN
-  d # i /\ StepV("ToExactExactCopy", op, CopyOf(S[i], "ExactPadding"), "copy")
+  ~IsCustom(S[i]) /\ d # i /\ StepV("ToExactExactCopy", op, CopyOf(S[i], "ExactPadding"), "copy")
+
+\* a padding class that is not an ExactPadding is converted through its _get_exact_dimensions_
+ToExactCustom == \E i \in Of("exact"), r \in RSs, d \in Dsts :
+  LET op == Op("to_exact", i, 0, d, "", Seq2(r), <<>>) IN
+  IsCustom(S[i]) /\ Step("ToExactCustom", op, EvToExact(S[i], SzOf(r), op))
 
 GetPaddedSize == \E i \in Pads, r \in RSs, d \in Dsts :
   LET op == Op("get_padded_size", i, 0, d, "", Seq2(r), <<>>) IN
@@ -151,17 +161,18 @@ ChainRenderSize == \E i \in Pads, j \in RenderSizes :
   \/ \E d \in Dsts : Step("ChainRenderSize", Op("get_padded_size", i, j, d, "", <<>>, <<>>), EvGetPaddedSize(S[i], rs))
   \/ Step("ChainRenderSize", Op("pad", i, j, 0, "", <<>>, <<>>), EvPad(S[i], rs))
 
-Dimensions == \E i \in Of("exact") : Step("Dimensions", Op("dimensions", i, 0, 0, "", <<>>, <<>>), EvDimensions(S[i]))
+Dimensions == \E i \in Of("exact") : ~IsCustom(S[i]) /\ Step("Dimensions", Op("dimensions", i, 0, 0, "", <<>>, <<>>), EvDimensions(S[i]))
 
 MinSize == \E i \in Of("aligned"), d \in Dsts : Step("MinSize", Op("min_size", i, 0, d, "", <<>>, <<>>), EvMinSize(S[i]))
 
-RebuildSame == \E i \in Pads, d \in Dsts :
+Built == {i \in Pads : ~IsCustom(S[i])}      \* the library's own padding classes
+RebuildSame == \E i \in Built, d \in Dsts :
   LET op == Op("rebuild", i, 0, d, "", <<>>, <<"none">>) IN Step("RebuildSame", op, EvRebuild(S[i], op))
 
-RebuildInt == \E i \in Pads, d \in Dsts, x \in RebuildInts : \E fi \in DOMAIN IntFields(S[i]) :
+RebuildInt == \E i \in Built, d \in Dsts, x \in RebuildInts : \E fi \in DOMAIN IntFields(S[i]) :
   LET op == Op("rebuild", i, 0, d, "", <<x>>, <<IntFields(S[i])[fi]>>) IN Step("RebuildInt", op, EvRebuild(S[i], op))
 
-RebuildStr == \E i \in Pads, d \in Dsts :
+RebuildStr == \E i \in Built, d \in Dsts :
   \E f \in ({<<"fill", x>> : x \in Fills}
             \cup (IF S[i].k = "aligned" THEN {<<"h_align", a>> : a \in HNames} \cup {<<"v_align", a>> : a \in VNames}
                   ELSE {})) :
@@ -185,9 +196,9 @@ Replace == \E i \in Of("size") \cup Of("color"), d \in Dsts :
   \E fi \in DOMAIN IntFields(S[i]), x \in (IF S[i].k = "size" THEN SizeReplace ELSE ChanReplace) :
     LET op == Op("replace", i, 0, d, "", <<x>>, <<IntFields(S[i])[fi]>>) IN Step("Replace", op, EvReplace(S[i], op))
 
-SetAttr == \E i \in Probed : S[i].k # "str" /\ \E a \in AttrNames(S[i]) :
+SetAttr == \E i \in Probed : S[i].k # "str" /\ ~IsCustom(S[i]) /\ \E a \in AttrNames(S[i]) :
   Step("SetAttr", Op("setattr", i, 0, 0, "", <<>>, <<a>>), EvProbe)
-DelAttr == \E i \in Probed : S[i].k # "str" /\ \E a \in AttrNames(S[i]) :
+DelAttr == \E i \in Probed : S[i].k # "str" /\ ~IsCustom(S[i]) /\ \E a \in AttrNames(S[i]) :
   Step("DelAttr", Op("delattr", i, 0, 0, "", <<>>, <<a>>), EvProbe)
 
 (* ---- colour family ------------------------------------------------------------------ *)
@@ -223,9 +234,9 @@ FromHexRejected == \E i \in Of("str"), c \in Sub("Color"), f \in Forms :
   ParseHex(Transform(S[i].n, f)) = <<>> /\ Step("FromHexRejected", op, EvFromHex(S[i], op))
 
 Next ==
-  \/ NewAligned \/ NewAlignedDefault \/ NewExact \/ NewExactRejected \/ NewExactDefault
+  \/ NewAligned \/ NewAlignedDefault \/ NewExact \/ NewExactRejected \/ NewExactDefault \/ NewAbstract
   \/ ResolveRelative \/ ResolveAbsolute \/ ResolveAbsoluteCopy \/ ToExactAligned \/ ToExactExact
-  \/ ToExactExactCopy \/ GetPaddedSize
+  \/ ToExactExactCopy \/ ToExactCustom \/ GetPaddedSize
   \/ ExactDims \/ PadOutput \/ RelativeRefused \/ ChainRenderSize \/ Dimensions \/ MinSize
   \/ RebuildSame \/ RebuildInt \/ RebuildStr \/ NewSize \/ NewSizeRejected \/ BypassSize
   \/ Replace \/ SetAttr \/ DelAttr
@@ -233,7 +244,7 @@ Next ==
   \/ NewStr \/ FromHex \/ FromHexRejected
 Spec == Init /\ [][Next]_vars
 
-ActionNames == {"NewAligned", "NewAlignedDefault", "NewExact", "NewExactRejected", "NewExactDefault",
+ActionNames == {"NewAbstract", "ToExactCustom", "NewAligned", "NewAlignedDefault", "NewExact", "NewExactRejected", "NewExactDefault",
   "ResolveRelative", "ResolveAbsolute", "ResolveAbsoluteCopy", "ToExactAligned", "ToExactExact",
   "ToExactExactCopy", "GetPaddedSize", "ExactDims",
   "PadOutput", "RelativeRefused", "ChainRenderSize", "Dimensions", "MinSize", "RebuildSame", "RebuildInt",
@@ -245,21 +256,22 @@ ActionNames == {"NewAligned", "NewAlignedDefault", "NewExact", "NewExactRejected
 TypeOK ==
   /\ fam \in {"pad", "color"}
   /\ Len(S) <= N /\ WFStore(S)
+  /\ \A i \in Slots : IsCustom(S[i]) => Subs
   /\ \A i \in Slots : S[i].k \in (IF Pad THEN {"aligned", "exact", "size"} ELSE {"color", "str"})
-  /\ out.res \in {"ok", "ValueError", RelErr, "AttributeError"}
+  /\ out.res \in {"ok", "ValueError", RelErr, "AttributeError", "TypeError"}
   /\ out.act \in ActionNames \cup {"Init"}
 
 \* one object = one record; identical objects are equal; == is an equivalence where it is decided
 IdentityAndEquality ==
   \A i, j \in Slots :
-    /\ S[i].id = S[j].id => Eq3(S[i], S[j]) = "T"
-    /\ Eq3(S[i], S[i]) = "T"
+    /\ S[i].id = S[j].id => Eq3(S[i], S[j]) = (IF IsCustom(S[i]) THEN "U" ELSE "T")
+    /\ Eq3(S[i], S[i]) = (IF IsCustom(S[i]) THEN "U" ELSE "T")
     /\ Eq3(S[i], S[j]) = Eq3(S[j], S[i])
     /\ \A m \in Slots : Eq3(S[i], S[j]) = "T" /\ Eq3(S[j], S[m]) = "T" => Eq3(S[i], S[m]) = "T"
 
 \* paddings of one class: equal exactly when all fields are equal (fill included)
 EqualFieldsEqualPaddings ==
-  \A i, j \in Pads : S[i].cls = S[j].cls =>
+  \A i, j \in Built : S[i].cls = S[j].cls =>
      (Eq3(S[i], S[j]) = "T") = (S[i].n = S[j].n /\ S[i].s = S[j].s)
 
 \* `relative` is True exactly when a minimum dimension is non-positive
@@ -345,8 +357,8 @@ ToExactStep ==
   Accepted /\ Named({"to_exact"}) =>
     /\ Dst.k = "exact" /\ Fill(Dst) = Fill(Src)
     /\ Src.k = "exact" => Dst.n = Src.n /\ Dst.s = Src.s /\ Dst.cls \in CopyClasses(Src, "to_exact")
-    /\ Src.k = "exact" /\ o2.dst # o2.i => (Dst.id = S'[o2.i].id) = (out'.var = "self")
-    /\ Src.k = "aligned" => Dst.cls = "ExactPadding" /\ (o2.dst # o2.i => Dst.id # S'[o2.i].id)
+    /\ Src.k = "exact" /\ ~IsCustom(Src) /\ o2.dst # o2.i => (Dst.id = S'[o2.i].id) = (out'.var = "self")
+    /\ Src.k = "aligned" \/ IsCustom(Src) => Dst.cls = "ExactPadding" /\ (o2.dst # o2.i => Dst.id # S'[o2.i].id)
     /\ P!Dims(AsPad(Dst), RSof) = P!Dims(AsPad(Src), RSof)
     /\ P!PaddedSize(AsPad(Dst), RSof) = P!PaddedSize(AsPad(Src), RSof)     \* the commuting law
 ToExactLaw == [][ToExactStep]_vars
